@@ -1,12 +1,14 @@
 import Std.Data.HashMap
 import Driver.Util
 import Driver.Wire
+import Driver.Conn
 open Driver
 
 def dispatch (line : String) : Verdict :=
   let toks := splitTokens line
   let (l, r) := splitBar toks
   match l with
+  | "C06" :: args => c06 args r
   | "C07" :: args => c07 args r
   | _ => vBad line
 
